@@ -309,7 +309,9 @@ class Gen(object):
                 args.append((f, ('var', rng.choice(bound))))
                 self.labels.add('join')
             elif r < 0.93:
-                pool = self.colvals.get((name, f))
+                pool = [x for x in self.colvals.get((name, f), ())
+                        if x != ('lit', None)]   # `P(f: null)` vs a null fact is a
+                #                                   same-text equation (DESIGN 6)
                 args.append((f, rng.choice(pool) if pool and rng.random() < 0.85
                              else self.lit_of(t)))
             else:
@@ -450,6 +452,14 @@ class Gen(object):
             self.labels.add('sibling_name_reuse')
         before = set(self.used)
         b = self.sub_body(inner, depth - 1)
+        prev = [x for x in getattr(self, '_agg_results', []) if env.get(x) == 'N']
+        if prev and self.chance(self.o['p_feed_sibling']):
+            # the value of an earlier combine is used inside this one
+            b.append(('cmp', rng.choice(['<', '<=', '>', '>=', '!=']),
+                      self.expr('N', inner, 1), ('var', rng.choice(prev))))
+            self.labels.add('combine_uses_sibling_result')
+            if saved_used is not None:
+                self.labels.add('sibling_reuse_and_feed')
         op = rng.choice(self.o['agg_ops'])
         if op == 'Count':
             e = self.expr(rng.choice(ATOMS), inner, 1)
@@ -473,6 +483,7 @@ class Gen(object):
             self.used |= saved_used
         self._sib_locals = set(getattr(self, '_sib_locals', set())) | locals_
         v = self.newvar(env, t)
+        self._agg_results = getattr(self, '_agg_results', []) + [v]
         self.labels.add('combine')
         self.labels.add('combine_' + op)
         form = rng.choice([0, 1, 2, 3])
@@ -542,15 +553,20 @@ class Gen(object):
         nrules = 2 if self.chance(o['p_two_rules']) else 1
         aggs = {}
         if distinct:
-            for f, t in list(zip(fields, types))[1:]:
-                if isinstance(f, str) and rng.random() < 0.7:
-                    if t == 'N':
-                        aggs[f] = rng.choice(o['pred_agg_ops_n'])
-                    elif t == 'S':
-                        aggs[f] = rng.choice(o['pred_agg_ops_s'])
+            for i, (f, t) in enumerate(list(zip(fields, types))):
+                if i == 0 or not isinstance(f, str) or rng.random() >= 0.7:
+                    continue
+                if t not in ATOMS:
+                    t = types[i] = rng.choice(ATOMS)
+                op = rng.choice(o['pred_agg_ops_n'] if t == 'N' else o['pred_agg_ops_s'])
+                aggs[f] = op
+                if op in ('List', 'Set'):
+                    types[i] = 'L' + t
             if vt and rng.random() < 0.6:
-                aggs['logica_value'] = rng.choice(
-                    o['pred_agg_ops_n'] if vt == 'N' else o['pred_agg_ops_s'])
+                op = rng.choice(o['pred_agg_ops_n'] if vt == 'N' else o['pred_agg_ops_s'])
+                if op in ('List', 'Set'):
+                    op = 'Max'
+                aggs['logica_value'] = op
             # grouping only on atoms
             for i, (f, t) in enumerate(zip(fields, types)):
                 if t not in ATOMS and f not in aggs:
@@ -562,6 +578,7 @@ class Gen(object):
             self.used = set()
             self.roots = set()
             self._sib_locals = set()
+            self._agg_results = []
             body = self.body(env, o['nest_depth'])
             if self.chance(o['p_or']):
                 body.append(self.disjunction(env))
@@ -602,6 +619,10 @@ class Gen(object):
     def agg_head_expr(self, op, t, env):
         if op == 'Count':
             return self.expr(self.rng.choice(ATOMS), env, 1)
+        if op in ('List', 'Set'):
+            return self.expr(t[1], env, 1)
+        if op in ('ArgMin', 'ArgMax'):
+            return ('arrow', self.expr(t, env, 1), self.expr('N', env, 1))
         return self.expr(t, env, 2)
 
     # ------------------------------------------------------------------ program
